@@ -118,7 +118,7 @@ func compareComparison(b *BinOp, env *MEnv, p EvalP, res Result) string {
 
 func runC12(r *vk.Run) {
 	r.SetRule("all 12 arithmetic/comparison operators x {vector op literal, literal op vector, vector op vector} (comparisons with and without bool) and and/or/unless between vectors; the two sides are max_over_time(.. | unwrap v [4s]) by (a,b) over differently selected records, " +
-		"made overlapping / disjoint / empty-left / empty-right by construction; values include 0 (x/0, x%0), negatives and fractions; scalars {0,-2,0.5,3,1,2,10,-0.5,100}; range queries of 3..6 steps and instant queries. Oracle: pointwise model; for comparisons: 1 exactly where it holds, otherwise absent or 0. " +
+		"made overlapping / disjoint / empty-left / empty-right by construction; values include 0 (x/0, x%0), negatives and fractions; scalars {0,-2,0.5,3,1,2,10,-0.5,100}; range queries of 3..6 steps and instant queries; phase vectorfn: vector(N) as operand, alone or through or/unless, over 3..6 steps. Oracle: pointwise model; for comparisons: 1 exactly where it holds, otherwise absent or 0. " +
 		"non-trivial = distinct (data, expression) with >=1 matched series; exhaustive over operator x operand-shape combinations.")
 	r.Assume("vector matching is on the full label set (modifiers on/ignoring/group_* are rejected by the implementation as unsupported)")
 	r.SetExhaustive(true)
@@ -291,6 +291,61 @@ func runC12(r *vk.Run) {
 			c.Nontrivial(fmt.Sprintf("nested|%d|%s", c.Idx, text))
 		}
 	})
+	// vector(N) as an operand: a constant series that exists at every step. Each step's result must be
+	// computed from the constant, not from what an earlier step left behind.
+	r.Phase("vectorfn", r.N(300, 40000), func(c *vk.Case) {
+		rng := c.Rng
+		steps := rng.Range(3, 6)
+		recs := genBinRecs(rng, steps, vk.Pick(rng, modes))
+		env := &MEnv{Recs: recs, Msg: env0.Msg, UnwrapKeeps: env0.UnwrapKeeps, CmpFalse: env0.CmpFalse, CmpFalseBool: env0.CmpFalseBool}
+		left := MExpr(c12Leaf("l|both"))
+		vec := func() MExpr { return &VectorFn{V: vk.Pick(rng, []float64{2, 0, 1, 3, 0.5, 10, 5})} } // vector() takes an unsigned number
+		lit := func() MExpr { return &Lit{V: vk.Pick(rng, c12Scalars)} }
+		op := vk.Pick(rng, c12Ops)
+		b := &BinOp{Op: op, Bool: isCmp(op) && rng.Bool()}
+		shape := ""
+		switch rng.Intn(7) {
+		case 0:
+			b.L, b.R, shape = vec(), lit(), "vector op literal"
+		case 1:
+			b.L, b.R, shape = lit(), vec(), "literal op vector"
+		case 2:
+			b.L, b.R, shape = vec(), vec(), "vector op vector"
+		case 3:
+			b.L, b.R, shape = &Paren{X: &BinOp{Op: "or", L: left, R: vec()}}, lit(), "(X or vector) op literal"
+		case 4:
+			b.L, b.R, shape = lit(), &Paren{X: &BinOp{Op: "or", L: left, R: vec()}}, "literal op (X or vector)"
+		case 5:
+			b.L, b.R, shape = &Paren{X: &BinOp{Op: "unless", L: vec(), R: left}}, lit(), "(vector unless X) op literal"
+		default:
+			b.L, b.R, shape = &Paren{X: &BinOp{Op: vk.Pick(rng, c12Ops[:6]), L: vec(), R: lit()}}, vec(), "(vector op literal) op vector"
+		}
+		text := b.Text()
+		p := EvalP{Start: metricT0 + 4e9, End: metricT0 + int64(steps)*4e9, Step: 4 * time.Second}
+		res, err := evalQuery(&MemQuerier{Recs: recs, ErrAfter: -1}, text, p)
+		c.Eval(1)
+		det := func() map[string]any { return map[string]any{"query": text, "records": recs, "params": p, "result": res, "shape": shape} }
+		if err != nil {
+			c.Fail("", "query failed: "+text+": "+err.Error(), det())
+			return
+		}
+		var m string
+		if isCmp(op) {
+			m = compareComparison(b, env, p, res)
+		} else {
+			m = compareMetric(b, env, p, res, 1e-12)
+		}
+		if m != "" {
+			c.Fail("", text+" ["+shape+"]: "+m, det())
+			return
+		}
+		c.Count("vectorfn_expressions", 1)
+		c.Count("vectorfn_points", len(gridTimes(p)))
+		c.Seen("vectorfn_shapes", shape)
+		c.Nontrivial(fmt.Sprintf("vectorfn|%d|%s", c.Idx, text))
+	})
+	r.Require("vectorfn_points", 800)
+	r.Require("distinct:vectorfn_shapes", 7)
 	r.Require("nested_nan_or_inf_operands", 100)
 	r.Require("distinct:op_x_shape", int64(len(combos)))
 	r.Require("nan_results", 20)
